@@ -27,7 +27,7 @@ package table
 // touches nothing else of the pipeline: no validation, blacklist, rewriter or aggregator call,
 // no counter except "unroutable".
 //@ func (table *Table) DispatchAggregate(buf []byte)
-//@   property C01,C11
+//@   property C01,C11,C18
 //@   requires table.wf()
 //@   let c := table.conf()
 //@   let name := nameOf(buf[..])
@@ -39,6 +39,7 @@ package table
 //@   ensures[unroutable; C01] table.numUnroutable.count == old(table.numUnroutable.count) +
 //@        ((exists j int :: 0 <= j && j < len(c.routes) && accepts(c.routes[j], name)) ? 0 : 1)
 //@   ensures[counters_quiet; C11] table.numIn.count == old(table.numIn.count) && table.numInvalid.count == old(table.numInvalid.count)
+//@   ensures[one_load; C18] table.config.loads == old(table.config.loads) + 1
 //@        && table.numBlacklist.count == old(table.numBlacklist.count) && table.numOutOfOrder.count == old(table.numOutOfOrder.count)
 //@   loop 1:
 //@     invariant[idx]    0 <= #i && #i <= len(#s) && #s == c.routes
@@ -59,7 +60,7 @@ package table
 //@ spec lineElem(line bytes, a int) elem := eP(eB(line, a), eNil)
 //@
 //@ func (table *Table) Dispatch(buf []byte)
-//@   property C01,C02,C04,C11,C19
+//@   property C01,C02,C04,C11,C18,C19
 //@   requires table.wf() && validate.pkgInv()
 //@   let c    := table.conf()
 //@   let cref := table.config.valref
@@ -77,6 +78,7 @@ package table
 //@   define rwStep(cref, 0, f0) == f0
 //@   define forall k int :: 0 <= k && k < len(c.rewriters) ==> rwStep(cref, k + 1, f0) == rwSpec(c.rewriters[k], rwStep(cref, k, f0))
 //@   modifies *
+//@   ensures[one_load; C18]     table.config.loads == old(table.config.loads) + 1
 //@   ensures[in_once; C02]      table.numIn.count == old(table.numIn.count) + 1
 //@   ensures[buf_frame; C04]    buf[..] == old(buf[..])
 //@   ensures[invalid; C02]      table.numInvalid.count == old(table.numInvalid.count) + (bad ? 1 : 0)
